@@ -448,7 +448,7 @@ var pureLibPkgs = map[string]bool{
 	"github.com/ipfs/go-cid": true, "github.com/libp2p/go-libp2p-core/peer": true, "github.com/multiformats/go-multiaddr": true,
 	"github.com/multiformats/go-multihash": true, "math": true, "net/url": true, "encoding/hex": true, "encoding/base64": true,
 	"github.com/ipfs/go-datastore": true, "github.com/ipfs/go-path": true, "net/textproto": true,
-	"github.com/gorilla/mux": true, "github.com/libp2p/go-libp2p-core/host": true,
+	"github.com/gorilla/mux": true, "github.com/libp2p/go-libp2p-core/host": true, "github.com/ipfs/go-ipfs-ds-help": true,
 }
 
 func (p *Program) isPureLib(fn *types.Func) bool {
